@@ -373,16 +373,22 @@ C07_SeidFreshPerAssociation == chk.seidLegal
 C07_TeidNonZeroAndUnique == chk.teidLegal
 
 \* C09 (BESS): QER values as signalled, session-level QER chosen soundly
+QosCfg == [q \in {cfg.qos[i].qfi : i \in 1..Len(cfg.qos)} |-> cfg.qos[CHOOSE i \in 1..Len(cfg.qos) : cfg.qos[i].qfi = q]]
 C09_QerValuesAsSignalled ==
   AfterAcceptedSessionReq =>
-    \A u \in DOMAIN sess : \E sq \in SessQerChoices(sess[u]) :
-       /\ SessionImageOK(tables, u, sess[u], sq)
-       /\ QerImageValuesOK(tables, u, sess[u], sq, cfg.qos)
+    \A u \in DOMAIN sess :
+       \/ \E sq \in SessQerChoices(sess[u]) :
+             /\ QerKeysOK(tables.appQer, tables.sessQer, u, sess[u], sq)
+             /\ QerImageValuesOK(tables, u, sess[u], sq, QosCfg)
+       \/ u \in Relaxed /\ QerValuesRelabelOK(tables, u, sess[u], QosCfg)
+\* the QER the datapath treats as session-wide limiter is referenced by every PDR of the session
 C09_SessionQerSound ==
   AfterAcceptedSessionReq =>
-    \A u \in DOMAIN sess : \E sq \in SessQerChoices(sess[u]) :
-       /\ SessionImageOK(tables, u, sess[u], sq)
-       /\ SoundSessQer(sess[u], sq)
+    \A u \in DOMAIN sess :
+       \/ \E sq \in SessQerChoices(sess[u]) :
+             /\ QerKeysOK(tables.appQer, tables.sessQer, u, sess[u], sq)
+             /\ SoundSessQer(sess[u], sq)
+       \/ u \in Relaxed
 
 \* C14
 C14_EndMarkersToOldTunnelOnce == chk.markers
@@ -405,5 +411,20 @@ Dbg == IF AfterAcceptedSessionReq \/ last.ev = "start"
        THEN [bad |-> {<<u, DbgSess(u)>> : u \in {v \in DOMAIN sess : ~DbgSess(v).all}},
              strays |-> {e.fseid : e \in {x \in tables.pdr \cup tables.far \cup tables.appQer \cup tables.sessQer : x.fseid \notin DOMAIN sess /\ x \notin stale}}]
        ELSE [bad |-> {}, strays |-> {}]
+DbgQerEntry(e, q, dir) ==
+  LET mbr == IF dir = "ul" THEN q.ulMbr ELSE q.dlMbr
+      gbr == IF dir = "ul" THEN q.ulGbr ELSE q.dlGbr
+      c == QosCfgOf(QosCfg, q.qfi)
+  IN [gate |-> e.gate, sig |-> IF dir = "ul" THEN q.ulGate ELSE q.dlGate, mbr |-> mbr, gbr |-> gbr, cfg |-> c,
+      pirOK |-> Eq(e.pir, MulSmall(mbr, 125)), cirOK |-> Eq(e.cir, BigMax(MulSmall(gbr, 125), <<1>>)),
+      floors |-> <<Leq(c.cbs, e.cbs), Leq(c.pbs, e.pbs), Leq(c.ebs, e.ebs)>>,
+      bursts |-> <<Leq(BurstOf(gbr, c.dur), e.cbs), Leq(BurstOf(mbr, c.dur), e.pbs), Leq(BurstOf(mbr, c.dur), e.ebs)>>,
+      want |-> <<BurstOf(gbr, c.dur), BurstOf(mbr, c.dur)>>, e |-> e]
+DbgQer == IF AfterAcceptedSessionReq
+          THEN {DbgQerEntry(e, sess[e.fseid].qers[e.qer], IF e.iface = 1 THEN "ul" ELSE "dl") :
+                  e \in {x \in tables.appQer : x.fseid \in DOMAIN sess /\ x.qer \in DOMAIN sess[x.fseid].qers
+                                               /\ ~QerValuesOK(x, sess[x.fseid].qers[x.qer], IF x.iface = 1 THEN "ul" ELSE "dl", QosCfg)}}
+          ELSE {}
+AliasC09 == [l |-> l, last |-> last, relabel |-> relabel, qerbad |-> DbgQer]
 Alias == [l |-> l, last |-> last, chk |-> chk, live |-> DOMAIN sess, relabel |-> relabel, used |-> used, dbg |-> Dbg]
 =============================================================================
